@@ -50,6 +50,8 @@ def run_case(job):
     mode = var.get("mode", "sequential")
     opts = {"use_numba": bool(var.get("numba", False)), "tol_p": 1e-10, "tol_m": 1e-10, "tol_res": 1e-8, "tol_T": 1e-9,
             "iter": 100, "mode": mode}
+    if s.get("fm", "nikuradse") != "nikuradse":       # the scenario's friction model (roughness designed per pipe, see designed.k_designed)
+        opts.update(friction_model=s["fm"], max_iter_colebrook=100, tolerance_colebrook=1e-13)
     opts.update(var.get("opts") or {})
     try:
         if mode == "heat":
